@@ -657,6 +657,9 @@ class ArrNormDomain(NormDomain):
                 return self.getattr(args[0], dotted.rsplit('.', 1)[-1], node)
             if self.rat(args[0]) is not None and isinstance(args[0], Const):
                 return {'shape': Tup([]), 'ndim': Const(0), 'size': Const(1)}[dotted.rsplit('.', 1)[-1]]
+        if dotted == 'numpy.outer' and len(args) == 2 and not kwargs and all(isinstance(a, Arr) for a in args):
+            a, b = args          # numpy flattens both operands
+            return Arr((len(a.data), len(b.data)), [it.binop(ast.Mult(), x, y, node) for x in a.data for y in b.data])
         if dotted == 'numpy.reshape' and len(args) == 2 and isinstance(args[0], Arr):
             return self.method(args[0], 'reshape', [args[1]], {}, node)
         if dotted in ('numpy.cross',) and len(args) == 2 and all(isinstance(a, Arr) and a.shape == (3,) for a in args):
